@@ -8,6 +8,7 @@ import (
 	"fmt"
 	"math"
 	"os"
+	"strconv"
 	"sync"
 )
 
@@ -62,7 +63,15 @@ func assume(c bool) {
 func vassert(c bool, msg string) {
 	if !c {
 		verifNative.mu.Lock()
-		verifNative.failures = append(verifNative.failures, msg)
+		dup := false
+		if concRounds() > 1 {
+			for _, f := range verifNative.failures {
+				dup = dup || f == msg
+			}
+		}
+		if !dup {
+			verifNative.failures = append(verifNative.failures, msg)
+		}
 		verifNative.mu.Unlock()
 	}
 }
@@ -141,3 +150,23 @@ func scratchDone(dir string) {
 func symClock(on bool) {}
 
 func pickU64(x uint64) uint64 { return x }
+
+func concurrent(p int) {}
+
+func concRounds() int {
+	if n, err := strconv.Atoi(os.Getenv("VERIF_ROUNDS")); err == nil && n > 0 {
+		return n
+	}
+	return 1
+}
+
+var verifBarrier chan struct{}
+
+func barrierReset() { verifBarrier = make(chan struct{}) }
+func barrierWait()  { <-verifBarrier }
+func barrierOpen()  { close(verifBarrier) }
+
+var verifHarnessMu sync.Mutex
+
+func hLock()   { verifHarnessMu.Lock() }
+func hUnlock() { verifHarnessMu.Unlock() }
